@@ -1081,6 +1081,13 @@ fn derive_dot_expression(
         // TypeErr propagation
         (Shape::TypeErr(_, _), _) => left_shape.clone(),
 
+        // A call or a copy on the right selects the field and then calls or
+        // copies it. We don't model the result so it is unconstrained.
+        (_, Expression::Call(_)) | (_, Expression::Copy(_)) => Shape::Narrowed(NarrowedShape {
+            pos: pos.clone(),
+            types: NarrowingShape::Any,
+        }),
+
         // Everything else is invalid
         (_, _) => Shape::TypeErr(pos.clone(), "Invalid field selector".to_owned()),
     }
